@@ -28,8 +28,16 @@ PUNCT = string.punctuation
 PRINTABLE = string.printable[:95]
 
 
+FORMATTY = ["SW%. 45 : x", "100% .", "A%d.M 1 : d", "%s :", "%(x)s. 1 :", "{0}.M 1: d", "{} . 2 : d", "{x}.", "A\\1. 3 : d", "$1.M 2 :", "%%. 1 : d",
+            "%.5f . 1 :", "a%", "% : %", "\\d+. 1 : d", "(?P<n>.) : d", "[A-Z]. 1 : x", "A*. 1 : x", "A+.M : y", "^A. 1 :", "A$.M 1 : d", "A|B. 1 : d"]
+
+
 def gen_junk(rng, long_ok=True):
-    k = rng.randrange(15)
+    k = rng.randrange(16)
+    if k == 15:
+        # lines that ARE parsable and whose mnemonic holds characters special to %-formatting, str.format or regular expressions
+        # (the mnemonic is pasted into session names, patterns and messages once it is a duplicate)
+        return rng.choice(FORMATTY), "format-chars"
     if k == 0:
         return "".join(rng.choice(PRINTABLE) for _ in range(rng.randint(1, 60))), "printable"
     if k == 1:
@@ -118,6 +126,12 @@ def insert_junk(rng, secs, long_ok=True):
         out[i]["body"].insert(rng.randint(0, len(out[i]["body"])) if not many else 0, (junk, "junk", None))
         kinds.append(kind)
         bad += name is None
+        if not many and len(junk) < 100 and rng.random() < 0.25:
+            # the SAME line once or twice more in the same section (a parsable one is then a duplicate of itself)
+            for _rep in range(rng.choice([1, 1, 2])):
+                out[i]["body"].insert(rng.randint(0, len(out[i]["body"])), (junk, "junk", None))
+                kinds.append(kind + "-repeated")
+                bad += name is None
     return out, kinds, bad
 
 
@@ -191,6 +205,56 @@ def oracle(run, text, text_j, nos, per, case):
     return True
 
 
+FIRST_OF_KIND = [":.", "see remarks: rev. 2", "a: b. c", ". :", "x : y.z", ":", ".", "a.b", "no delimiters", "a..b : c", "a : b..c", "..", "::",
+                 "1.5", "a.b.c", "a:b:c", "a.b:c.d:e", ":a.b"]
+
+
+def fresh_stream(run, picked):
+    """(base, with junk) pairs read in interpreters of their own: [with junk (flag on), base] in one, [base] in another.  What the
+    junk file gives must be the genuine dump with the junk items interleaved, and the base read AFTER the junk file must be the base
+    read alone -- whatever lasio keeps between calls, the junk lines are then the FIRST lines of their kind it has seen."""
+    from .. import fresh
+    jobs = []
+    for text, text_j, nos, per, case in picked:
+        jobs.append([{"text": text_j, "kw": {"ignore_header_errors": True}}, {"text": text}])
+        jobs.append([{"text": text}])
+    res = fresh.histories(jobs, par=8)
+    for n, (text, text_j, nos, per, case) in enumerate(picked):
+        a, b = res[2 * n], res[2 * n + 1]
+        c2 = dict(case, stream="fresh-interpreter")
+        run.case(c2, nontrivial=True, tags=["fresh-interpreter"])
+        if "err" in b[0]:
+            continue
+        if "err" in a[0]:
+            run.fail("raises-with-flag", c2, a[0])
+            continue
+        d = compare(b[0]["ok"], a[0]["ok"], per)
+        if d:
+            run.fail("junk-interferes", c2, {"what": d, "base": b[0]["ok"], "with_junk": a[0]["ok"], "fresh_interpreter": True})
+        elif a[1] != b[0]:
+            run.fail("junk-interferes-with-later-read", c2, {"base_alone": b[0], "base_after_junk_file": a[1]})
+
+
+def first_of_kind_cases(rng, n):
+    """documents whose FIRST body line of one section is a junk line of a given delimiter shape"""
+    out = []
+    for _ in range(n):
+        secs = ld.gen_doc(rng)
+        sites = [i for i, s in enumerate(secs) if s["kind"] in ("V", "W", "P", "X")]
+        if not sites:
+            continue
+        cp = [ld.Sec(s) for s in secs]
+        i = rng.choice(sites)
+        junk = rng.choice(FIRST_OF_KIND)
+        if not admissible(junk, cp[i]["title"])[0]:
+            continue
+        cp[i]["body"] = [(junk, "junk", None)] + list(cp[i]["body"])
+        nos, per = junk_lines(cp)
+        text, text_j = ld.render(secs), ld.render(cp)
+        out.append((text, text_j, nos, per, {"text": text, "with_junk": text_j, "inserted_lines": nos, "per": per}))
+    return out
+
+
 def corpus_docs():
     """readable corpus files cut into the section structure of the generator (title + raw body lines)"""
     for name, txt in c05.corpus_texts():
@@ -228,6 +292,7 @@ def run(run):
         if any(s["kind"] in ("V", "W", "P", "X") for s in secs):
             bases.append(("corpus:" + name, secs, "\n", True))
     per_base = run.budget(5, 14)
+    fresh_pool = []
     for origin, secs, eol, fin in bases:
         text = ld.render(secs, eol, fin)
         if "err" in ld.read_full(text):
@@ -243,6 +308,8 @@ def run(run):
             full_case = {"text": text, "with_junk": text_j, "inserted_lines": nos, "per": per}
             run.case(case, nontrivial=bad > 0, tags=[origin.split(":")[0], "count=%d" % len(nos), "unparsable=%d" % bad] + ["junk:" + k for k in kinds])
             oracle(run, text, text_j, nos, per, full_case)
+            if len(text_j) < 6000:
+                fresh_pool.append((text, text_j, nos, per, full_case))
             if any(k == "long-10000-dots-or-colons" or (k.startswith("long-1000") and k.endswith("colons")) for k in kinds):
                 run.dist["oracle-only(long dots/colons)"] += 1
                 continue
@@ -252,6 +319,8 @@ def run(run):
             batch.add(origin, text_j, True, rng.choice(["upper", "upper", "preserve", "lower"]))
             batch.add(origin, text_j, False, "upper")
     batch.flush()
+    rng.shuffle(fresh_pool)
+    fresh_stream(run, first_of_kind_cases(rng, run.budget(16, 80)) + fresh_pool[:run.budget(16, 120)])
     total = run.dist["unmodelled"] + run.dist["compared"]
     if total:
         run.notes.append("unmodelled answers: %d of %d model requests (%.2f %%)" % (run.dist["unmodelled"], total, 100.0 * run.dist["unmodelled"] / total))
@@ -260,6 +329,10 @@ def run(run):
 
 
 def search(run, disagreements):
+    # first the texts of the disagreeing cases themselves and junk lines that are the first of their kind, each in a fresh interpreter
+    fresh_stream(run, first_of_kind_cases(run.rng, run.budget(40, 200)))
+    if run.failures:
+        return
     for n in range(run.budget(2000, 20000)):
         secs = ld.gen_doc(run.rng)
         secs_j, kinds, bad = insert_junk(run.rng, secs, long_ok=False)
@@ -282,7 +355,11 @@ def shrink(run, f):
 def replay(run, payload):
     c = payload["case"]
     before = len(run.failures)
-    oracle(run, c["text"], c["with_junk"], c["inserted_lines"], c.get("per", {}), c)
+    if c.get("stream") == "fresh-interpreter":
+        c0 = {k: v for k, v in c.items() if k != "stream"}
+        fresh_stream(run, [(c["text"], c["with_junk"], c["inserted_lines"], c.get("per", {}), c0)])
+    else:
+        oracle(run, c["text"], c["with_junk"], c["inserted_lines"], c.get("per", {}), c)
     return len(run.failures) == before
 
 
